@@ -1487,6 +1487,20 @@ func (vars algorithmExpansion) Call() (ExpandedValue, error) {
 
 						// [dpb] hacky; ensure propertySourceOffsets get correctly attributed in this case
 						if needsListWrap, ok := expandedValue.(*ExpandedArray); containerMapping != nil && slices.Contains(containerMapping, "@list") && ok {
+							if vars.activeContext._processor.processingMode == ProcessingMode_JSON_LD_1_0 {
+								// json-ld-1.0: an item of a list must not itself be a list (#ter24)
+								for _, item := range needsListWrap.Values {
+									if itemObject, ok := item.(*ExpandedObject); ok {
+										if _, hasAtList := itemObject.Members["@list"]; hasAtList {
+											return jsonldtype.Error{
+												Code: jsonldtype.InvalidSetOrListObject,
+												Err:  fmt.Errorf("invalid structure (processing mode %s): list of lists", vars.activeContext._processor.processingMode),
+											}
+										}
+									}
+								}
+							}
+
 							expandedValue = &ExpandedObject{
 								Members: map[string]ExpandedValue{
 									"@list": needsListWrap,
@@ -1532,15 +1546,6 @@ func (vars algorithmExpansion) Call() (ExpandedValue, error) {
 							"@list": expandedValue,
 						},
 						PropertySourceOffsets: vars.activePropertySourceOffsets,
-					}
-				} else {
-					// [dpb] not supported in 1.0, apparently; fixes #ter24
-
-					if vars.activeContext._processor.processingMode == ProcessingMode_JSON_LD_1_0 {
-						return jsonldtype.Error{
-							Code: jsonldtype.InvalidSetOrListObject,
-							Err:  fmt.Errorf("invalid structure (processing mode %s): list of lists", vars.activeContext._processor.processingMode),
-						}
 					}
 				}
 			}
